@@ -22,7 +22,7 @@ Your task: make ONE small, realistic source change to dropshot (the kind of slip
   (2) the existing test suite still passes completely: run `cd {wt} && cargo test --workspace --offline --no-fail-fast 2>&1 | grep -E "^test result|FAILED|failed"` and make sure nothing fails (doc tests included). The existing tests must NOT be edited.
 The change must need something SPECIFIC to manifest - a particular shape of route table / unusual input / particular value at a boundary / multi-step sequence / particular interleaving / two cooperating sites that each look fine alone - and must NOT be exposed by ordinary use at once (if nearly every request or every registration misbehaves, it is too blunt; pick something subtler). It must be a genuine violation of the property as stated (not of something the statement does not say). {hint}
 
-Then write a demonstration: a NEW test file or small example program (e.g. a new file under {wt}/dropshot/tests/ or {wt}/dropshot/examples/, using only the public API, or a new #[test] in a new file) that FAILS with your change and PASSES without it. Verify both directions yourself (use `git stash` or apply/revert the patch to check the unmodified behaviour).
+Then write a demonstration: a NEW test file or small example program (e.g. a new file under {wt}/dropshot/tests/ or {wt}/dropshot/examples/, using only the public API, or a new #[test] in a new file) that FAILS with your change and PASSES without it. Verify both directions yourself by applying and reverting your patch (`git diff > patch.diff`, `git apply -R patch.diff`, `git apply patch.diff`). Do NOT use `git stash`: the stash is shared between all worktrees of this repository and other agents are working in sibling worktrees at the same time.
 
 Deliverables, all under {out}/:
   - patch.diff : output of `git -C {wt} diff` for the source change ONLY (not including the demonstration file); it must apply cleanly with `git apply` to a clean checkout of the same commit.
